@@ -84,6 +84,16 @@ func main() {
 		if err := res.Write(*out); err != nil {
 			panic(err)
 		}
+	case "modtext":
+		// verifh modtext FILE...: the module the generator writes for each profile file against the Coq model of the generator
+		drv, err := core.StartDriver("/verif/.build/driver")
+		if err != nil {
+			panic(err)
+		}
+		res := core.NewResult("C07", "quick", 1, "/verif")
+		env := &core.Env{Repo: "/repo", Verif: "/verif", Tier: "quick", Seed: 1, Driver: drv, Res: res}
+		props.ModText(env, os.Args[2:])
+		drv.Close()
 	case "oneshot":
 		cfg := 0
 		if len(os.Args) > 4 {
